@@ -565,11 +565,18 @@ namespace bloch::update {
             std::istringstream in(content);
             std::string line;
             while (std::getline(in, line)) {
-                if (line.find(assetName) == std::string::npos)
-                    continue;
+                // "<hash>  <file>" (sha256sum; the file may carry the binary-mode '*' prefix).
+                // The file field must be the asset itself, not a name that merely contains it
+                // (bloch-...tar.gz.sig, old-bloch-...tar.gz, ...).
                 std::istringstream parts(line);
                 std::string hash;
-                if (parts >> hash)
+                std::string file;
+                std::string extra;
+                if (!(parts >> hash >> file) || (parts >> extra))
+                    continue;
+                if (!file.empty() && file.front() == '*')
+                    file.erase(file.begin());
+                if (file == assetName)
                     return hash;
             }
             return std::nullopt;
